@@ -166,6 +166,7 @@ struct St {
     cur_call: Vec<u32>,
     parked_site: Vec<usize>,
     churn_req: Option<(usize, usize)>,
+    exit_join: Option<(usize, Option<usize>)>,
     rng: Rng,
     // policy state
     order: Vec<usize>,
@@ -562,12 +563,29 @@ impl Shared {
                         }
                     }
                 }
+                if kind == Kind::Exit {
+                    // This OS thread is finished. Its thread-local destructors must not run concurrently with
+                    // the thread that takes over. If nobody is parked in the middle of a call, the thread really
+                    // exits: the baton goes to the coordinator, which joins it (destructors run, nothing else
+                    // does) and then passes the baton on to `nx`. Otherwise (a destructor might want a lock a
+                    // parked thread holds, and outside a call the simulator cannot schedule around that) the OS
+                    // thread is kept parked until the process ends and never runs its destructors.
+                    if st.in_call.iter().any(|x| x.is_some()) {
+                        st.current = nx;
+                        self.cv[nx].notify_one();
+                        loop {
+                            st = self.cv[me].wait(st).unwrap();
+                        }
+                    }
+                    st.exit_join = Some((me, Some(nx)));
+                    st.current = self.n;
+                    self.cv[self.n].notify_one();
+                    return u64::MAX;
+                }
                 st.current = nx;
                 self.cv[nx].notify_one();
-                if kind != Kind::Exit {
-                    while st.current != me {
-                        st = self.cv[me].wait(st).unwrap();
-                    }
+                while st.current != me {
+                    st = self.cv[me].wait(st).unwrap();
                 }
             }
             Some(_) => {}
@@ -575,6 +593,7 @@ impl Shared {
                 match kind {
                     Kind::Exit => {
                         // nobody left to run: back to the coordinator (which also notices stuck threads)
+                        st.exit_join = Some((me, None));
                         st.current = self.n;
                         self.cv[self.n].notify_one();
                     }
@@ -760,6 +779,7 @@ fn client_main(sh: &'static Shared, me: usize, start_call: usize) {
         let calls = &sh.spec.clients[me];
         let churn = &sh.spec.churn[me];
         let mut k = start_call;
+        let mut churn_pending = false;
         while k < calls.len() {
             tick::begin_call(c, k as u32);
             if let Some(js) = sh.spec.clock_jumps.get(me) {
@@ -783,11 +803,19 @@ fn client_main(sh: &'static Shared, me: usize, start_call: usize) {
             c.in_call.set(false);
             sh.complete(me, k as u32, entry, out, c.ticks.get(), c.trace.get(), c);
             k += 1;
-            if k < calls.len() && churn.contains(&((k - 1) as u32)) {
-                // retire this OS thread; the coordinator joins it (TLS destructors run) and spawns the successor
+            if k < calls.len() && (churn_pending || churn.contains(&((k - 1) as u32))) {
+                // retire this OS thread; the coordinator joins it (TLS destructors run) and spawns the successor.
+                // Thread-local destructors run outside any call, where the simulator cannot turn a blocking lock
+                // into a scheduling decision: if another caller is parked in the middle of a call (possibly inside a
+                // critical section a destructor wants), the retirement is deferred to this thread's next boundary
+                // at which nobody is mid-call.
+                let mut st = sh.m.lock().unwrap();
+                if st.in_call.iter().any(|x| x.is_some()) {
+                    churn_pending = true;
+                    continue;
+                }
                 set_thread_hook(None);
                 c.mode.set(tick::MODE_OFF);
-                let mut st = sh.m.lock().unwrap();
                 st.f[6] += 1;
                 st.churn_req = Some((me, k));
                 st.ready[me] = false;
@@ -844,6 +872,7 @@ pub fn run_child(pool: &Pool, spec: &RunSpec) -> ! {
         cur_call: vec![0; n],
         parked_site: vec![BOUNDARY; n],
         churn_req: None,
+        exit_join: None,
         rng,
         order,
         prio,
@@ -922,6 +951,23 @@ pub fn run_child(pool: &Pool, spec: &RunSpec) -> ! {
                 st.current = c;
                 sh.cv[c].notify_one();
                 continue;
+            }
+            if let Some((c, next)) = st.exit_join.take() {
+                // a client finished while nobody was mid-call: let its OS thread terminate (TLS destructors run
+                // now, alone), then pass the baton on
+                let blocked_mid_call = st.in_call.iter().any(|x| x.is_some());
+                drop(st);
+                if !blocked_mid_call {
+                    if let Some(h) = handles[c].take() {
+                        let _ = h.join();
+                    }
+                }
+                st = sh.m.lock().unwrap();
+                if let Some(nx) = next {
+                    st.current = nx;
+                    sh.cv[nx].notify_one();
+                    continue;
+                }
             }
             if st.done.iter().all(|d| *d) {
                 break;
